@@ -153,6 +153,27 @@ def vec(t):
               concrete=f"Vec<{t.concrete}>", trait_rust=f"Vec<{t.trait_rust}>")
 
 
+def cosmos_msgs(custom_msg):
+    """`Vec<CosmosMsg<Self::ExecC>>` of an interface with associated custom types (the cw1 `execute` shape): the reserved
+    associated type `ExecC` is a parameter of the generated message like any other associated type."""
+    m = "MyMsg" if custom_msg else "Empty"
+
+    def g(r, d):
+        out = []
+        for _ in range(r.choice([0, 1, 2])):
+            c = r.random()
+            if c < 0.5:
+                out.append({"bank": {"send": {"to_address": "addr" + str(r.randrange(99)), "amount": [{"denom": "uatom", "amount": str(r.randrange(1000))}]}}})
+            elif c < 0.8 or not custom_msg:
+                out.append({"wasm": {"execute": {"contract_addr": "c" + str(r.randrange(99)), "msg": "e30=", "funds": []}}})
+            else:
+                out.append({"custom": {"ping": {"n": r.randrange(1000)}}})
+        return out
+    t = Ty(f"Vec<CosmosMsg<{m}>>", g, "vec", concrete=f"Vec<CosmosMsg<{m}>>", trait_rust="Vec<CosmosMsg<Self::ExecC>>")
+    t.param = "ExecC"
+    return t
+
+
 def qualified(t):
     """`<svmon::Enc as svmon::Encoding<T>>::Wire` (= Vec<T>): T occurs only as a generic argument of a non-final path segment."""
     return Ty(f"<svmon::Enc as svmon::Encoding<{t.rust}>>::Wire", lambda r, d: [t.gen(r, d + 1) for _ in range(r.choice([0, 1, 2]))], "vec", sub=(t,),
